@@ -30,7 +30,7 @@ TraceClauses(p, T, ev) ==
        F("visited", ~LawVisited(p, T))
   \cup F("score",   LawVisited(p, T) /\ ~LawScore(p, T))
   \cup F("ret",     LawVisited(p, T) /\ ~LawRet(p, T))
-  \cup F("selfassess.run",   ev.assess.status # "ok")
+  \cup F("selfassess.run",   ev.assess.status \notin {"ok", "none"})
   \cup F("selfassess.score", ev.assess.status = "ok" /\ ~Close(ev.assess.score, T.score))
   \cup F("selfassess.ret",   ev.assess.status = "ok" /\ ev.assess.ret # T.ret)
 
@@ -44,6 +44,33 @@ AltClauses(post, ev) ==
   ELSE IF ev.alt.status # "ok" THEN {"derived.run"}
   ELSE F("derived.same", ~(SameT(Abs(ev.alt.post), post) /\ Close(ev.alt.w, ev.w)))
 
+Alt2Clauses(post, ev) ==    \* C35: the same request with Mask(v,True) unwrapped and Mask(v,False) entries dropped, same key
+  IF ev.alt2.status = "none" THEN {}
+  ELSE IF ev.alt2.status # "ok" THEN {"mask.run"}
+  ELSE F("mask.equiv", ~(SameT(Abs(ev.alt2.post), post) /\ Close(ev.alt2.w, ev.w)))
+
+\* C34: the sub-trace at static address addr (below leading index levels)
+LeadIdx(a) == IF a = <<>> \/ ~IsIdx(Head(a)) THEN 0 ELSE
+              CHOOSE n \in 1..Len(a) : (\A i \in 1..n : IsIdx(a[i])) /\ (n = Len(a) \/ ~IsIdx(a[n + 1]))
+AtSite(addr, a) == LET n == LeadIdx(a) IN IsPrefixP(addr, DropP(a, n))
+SiteKey(addr, a) == LET n == LeadIdx(a) IN SubSeq(a, 1, n) \o DropP(a, n + Len(addr))
+SubtraceClauses(p, T, ev) ==
+  LET r    == ExecT(p, T)
+      here == {a \in DOMAIN T.choices : AtSite(ev.extra, a)}
+      want == [k \in {SiteKey(ev.extra, a) : a \in here} |-> T.choices[CHOOSE a \in here : SiteKey(ev.extra, a) = k]]
+  IN  F("subtrace.choices", Fn(ev.subt.choices) # want)
+      \cup F("subtrace.score", LawVisited(p, T) /\ ~Close(ev.subt.score, SumF(r.lps, here)))
+
+AssessClauses(p, ev) ==
+  LET c == Fn(ev.cons)
+      r == Exec(p, ev.reqargs, c, FALSE)
+  IN  IF r.err = "reuse" THEN {}
+      ELSE IF ev.status = "ok" THEN
+             F("assess.value", r.err = "none" /\ ~(Close(ev.w, Score(r)) /\ (p.k = "maskediterate" \/ ev.subt.ret = r.ret)))
+             \cup F("missing", p.k = "static" /\ r.err = "missing")
+      ELSE IF ev.status = "raised:MissingAddress" THEN F("missing", r.err # "missing")
+      ELSE F("assess.run", r.err = "none")
+
 TagClauses(ev) ==
   F("nochange", \E j \in 1..Len(ev.retdiff) : ev.retdiff[j].tag = "N" /\ ev.retdiff[j].aligned /\ ev.retdiff[j].primal # ev.retdiff[j].prev)
 
@@ -53,6 +80,7 @@ Clauses(ev) ==
       post == Abs(ev.post)
       cons == Fn(ev.cons)
   IN
+  IF ev.op = "assess" THEN AssessClauses(p, ev) ELSE
   IF ev.status # "ok" THEN
        IF IsRejected(ev.status) /\ ev.op \notin Promised THEN {}
        ELSE IF ev.status = "raised:AddressReuse" /\ Exec(p, ev.reqargs, EmptyF, TRUE).err = "reuse" THEN {}   \* C22: required
@@ -62,11 +90,11 @@ Clauses(ev) ==
   CASE ev.op = "simulate" ->
          TraceClauses(p, post, ev) \cup AltClauses(post, ev) \cup F("args", post.args # ev.reqargs)
     [] ev.op = "generate" ->
-         TraceClauses(p, post, ev) \cup AltClauses(post, ev) \cup F("args", post.args # ev.reqargs)
+         TraceClauses(p, post, ev) \cup AltClauses(post, ev) \cup Alt2Clauses(post, ev) \cup F("args", post.args # ev.reqargs)
          \cup F("gen.agree", ~LawGenAgree(post, cons))
          \cup F("gen.weight", LawVisited(p, post) /\ ~LawGenWeight(p, post, cons, ev.w))
     [] ev.op \in {"update", "diffannotate"} ->
-         TraceClauses(p, post, ev) \cup AltClauses(post, ev) \cup UndoClauses(pre, ev) \cup TagClauses(ev)
+         TraceClauses(p, post, ev) \cup AltClauses(post, ev) \cup Alt2Clauses(post, ev) \cup UndoClauses(pre, ev) \cup TagClauses(ev)
          \cup F("upd.args", ~LawUpdArgs(post, ev.reqargs))
          \cup F("upd.constrained", ~LawUpdConstrained(post, cons))
          \cup F("upd.kept", ~LawUpdKept(p, pre, post, ev.tags, cons))
@@ -104,6 +132,7 @@ Clauses(ev) ==
          \cup F("upd.constrained", ~LawUpdConstrained(post, cons))
          \cup F("static.others", \E a \in DOMAIN pre.choices :
                    a \notin DOMAIN cons /\ ~IsPrefixP(ev.extra, a) /\ (a \notin DOMAIN post.choices \/ post.choices[a] # pre.choices[a]))
+    [] ev.op = "subtrace" -> SubtraceClauses(p, pre, ev)
     [] ev.op = "project" ->
          F("project.value", ~LawProject(p, pre, ev.sel, ev.w))
          \cup F("project.split", ~Close(ev.w + ev.w2, pre.score))
